@@ -43,7 +43,8 @@
 (*                   selector: the reply depends on earlier read-only requests              *)
 (*   PycacheListed   PYG loading leaves __pycache__ in the served tree, later listed        *)
 (* Sites that are NOT defects: NotFound (FileNotFound -> error reply), MailboxOSError       *)
-(* (OSError family from the mailbox library -> logged, error reply), WapSubprocess (wap.py  *)
+(* (OSError family from the mailbox library -> logged, error reply), WapSubprocess (repaired *)
+(* upstream by fe55d6b / 758309a, the step is kept but no handler takes it any more: wap.py  *)
 (* converts text through an in-memory file that has no fileno() for a subprocess handler:   *)
 (* io.UnsupportedOperation, an OSError, is logged and an error page follows the 200 header; *)
 (* the reply stays well-formed - unless ArgsIndex turns it into IndexError).                *)
@@ -598,7 +599,8 @@ Entry ==                                        \* getentry(), prepare(): still 
             /\ UNCHANGED <<kind, todo, fds, fs>>
        ELSE /\ kind' = IF mode = "info" THEN "info" ELSE e.kind
             /\ todo' = OkPlan(fam, m, mode, e.kind, e.n, hname \in SizedHandlers, hname = "CompressedFileHandler", rq.nw,
-                              hname = "ExecHandler" /\ ~rq.tls)       \* (CompressedFileHandler captures since fe55d6b)
+                              FALSE)     \* WapSubprocess: CompressedFileHandler (fe55d6b) and ExecHandler (758309a)
+                                         \* now capture and relay when the stream has no descriptor
             /\ SetSite(IF fam = "GP" /\ mode # "info" /\ hname = "CompressedFileHandler" THEN "GzSize"
                        \* the listing (fresh or cached) shows an entry the pristine directory does not have
                        ELSE IF hname \in {"UMNDirHandler", "DirHandler"} /\ mode # "info"
